@@ -67,7 +67,9 @@ impl Type {
             Type::Raw(path) => type_registry.get(path).and_then(|t| t.size()),
             Type::ConstPointer(_) => Some(type_registry.pointer_size()),
             Type::MutPointer(_) => Some(type_registry.pointer_size()),
-            Type::Array(tr, count) => tr.size(type_registry).map(|s| s * count),
+            Type::Array(tr, count) => tr
+                .size(type_registry)
+                .and_then(|s| s.checked_mul(*count)),
             Type::Function(_, _, _) => Some(type_registry.pointer_size()),
         }
     }
